@@ -130,3 +130,112 @@ func nestedStops(what string, seq iter.Seq[string], unordered bool) core.Outcome
 	}
 	return core.Outcome{Class: fmt.Sprint("items=", min(n, 3)), Nontrivial: n >= 2, Evals: evals}
 }
+
+// interleavedSeqs: TWO iterator values (over different data) alive at once on one goroutine, advanced in
+// every interleaving; additionally A is abandoned (stopped) after each number of items while B goes on,
+// and the other way round. Each must yield exactly what it yields alone. State shared between iterator
+// VALUES (a pooled stack, a package-level scratch slice) shows here.
+func interleavedSeqs(what string, a, b iter.Seq[string]) core.Outcome {
+	collect := func(s iter.Seq[string]) []string {
+		var out []string
+		for v := range s {
+			out = append(out, v)
+			if len(out) > 1<<12 {
+				break
+			}
+		}
+		return out
+	}
+	wantA, wantB := collect(a), collect(b)
+	evals := 2
+	var fail string
+	run := func(schedule string, stopA, stopB int) {
+		nextA, endA := iter.Pull(a)
+		nextB, endB := iter.Pull(b)
+		defer endA()
+		defer endB()
+		var gotA, gotB []string
+		doneA, doneB := false, false
+		pull := func(w byte) {
+			if w == 'A' && !doneA {
+				if stopA >= 0 && len(gotA) == stopA {
+					endA()
+					doneA = true
+					return
+				}
+				if v, ok := nextA(); ok {
+					gotA = append(gotA, v)
+				} else {
+					doneA = true
+				}
+			}
+			if w == 'B' && !doneB {
+				if stopB >= 0 && len(gotB) == stopB {
+					endB()
+					doneB = true
+					return
+				}
+				if v, ok := nextB(); ok {
+					gotB = append(gotB, v)
+				} else {
+					doneB = true
+				}
+			}
+		}
+		for i := 0; i < len(schedule); i++ {
+			pull(schedule[i])
+		}
+		for !doneA && len(gotA) <= len(wantA)+3 {
+			pull('A')
+		}
+		for !doneB && len(gotB) <= len(wantB)+3 {
+			pull('B')
+		}
+		evals++
+		chk := func(name string, got, want []string, stop int) {
+			exp := want
+			if stop >= 0 && stop < len(want) {
+				exp = want[:stop]
+			}
+			if fmt.Sprint(got) != fmt.Sprint(exp) && fail == "" {
+				fail = fmt.Sprintf("pulled in the order %s (A abandoned after %d items, B after %d; -1 = never): iterator %s yielded %s, alone it yields %s", schedule, stopA, stopB, name, trunc(fmt.Sprint(got), 200), trunc(fmt.Sprint(exp), 200))
+			}
+		}
+		chk("A", gotA, wantA, stopA)
+		chk("B", gotB, wantB, stopB)
+	}
+	p := catch(func() {
+		interleavings(len(wantA)+1, len(wantB)+1, nil, func(s string) bool {
+			run(s, -1, -1)
+			return fail == ""
+		})
+		alt := ""
+		for i := 0; i < len(wantA)+len(wantB)+2; i++ {
+			alt += "AB"
+		}
+		for k := 0; k <= len(wantA) && fail == ""; k++ {
+			run(alt, k, -1)
+			run("B"+alt, k, -1)
+		}
+		for k := 0; k <= len(wantB) && fail == ""; k++ {
+			run(alt, -1, k)
+			run("B"+alt, -1, k)
+		}
+		// after abandoned runs: a plain complete run of each again
+		if fail == "" {
+			if got := collect(a); fmt.Sprint(got) != fmt.Sprint(wantA) {
+				fail = fmt.Sprintf("after the abandoned runs a plain run of A yields %s, want %s", trunc(fmt.Sprint(got), 200), trunc(fmt.Sprint(wantA), 200))
+			}
+			if got := collect(b); fmt.Sprint(got) != fmt.Sprint(wantB) && fail == "" {
+				fail = fmt.Sprintf("after the abandoned runs a plain run of B yields %s, want %s", trunc(fmt.Sprint(got), 200), trunc(fmt.Sprint(wantB), 200))
+			}
+		}
+	})
+	if p != "" {
+		return core.Failf("%s: two iterators alive at once: panic: %s", what, p)
+	}
+	if fail != "" {
+		return core.Failf("%s: %s", what, fail)
+	}
+	return core.Outcome{Class: fmt.Sprint("items=", min(len(wantA), 2), "+", min(len(wantB), 2)), Nontrivial: len(wantA) >= 1 && len(wantB) >= 1, Evals: evals}
+}
